@@ -287,7 +287,10 @@ func volumeDeps(c *core.C, t *core.T, vc volCase) {
 				if !bad && len(w.arches) > 0 {
 					bad = g.Architectures.Not != w.not || len(g.Architectures.Architectures) != len(w.arches)
 					for x := 0; !bad && x < len(w.arches); x++ {
-						bad = g.Architectures.Architectures[x].String() != w.arches[x]
+						// (the triple, not its spelling: how an architecture renders is C05's fix-point business)
+						m, ok := model.DenoteArch(w.arches[x])
+						a := g.Architectures.Architectures[x]
+						bad = !ok || a.ABI != m.ABI || a.OS != m.OS || a.CPU != m.CPU
 					}
 				}
 			}
